@@ -60,5 +60,8 @@ def history_triggers(r0):
     trig = r0["triggers"]
 
     def f(case, a, b):
-        return trig.get(case.meta.get("parent"), [])
+        # ... and those the model reports for the variant's own run: a failed operation changes
+        # what the later operations of the history meet (e.g. a link that a failed RemoveAll left)
+        own = sorted(b["F"]) if b and b.get("F") else []
+        return sorted(set(trig.get(case.meta.get("parent"), [])) | set(own))
     return f
